@@ -473,6 +473,22 @@ func ruleC18_4(c *Ctx) {
 		}, nil)
 		c.check(!again, R, fname(h1), "no second pass over a substituted string", rp.Pos(), "Replace result does not flow into Replace", "a substituted string is substituted again (markers introduced by values would be expanded)")
 	}
+	// every element of the result is a Replace result: no append of an unsubstituted element, and the Replace lies on
+	// every path through the loop body
+	for _, ap := range callsIn(h1, "builtin:append") {
+		cc := ap.(*ssa.Call)
+		if len(cc.Call.Args) < 2 {
+			continue
+		}
+		okEl := len(reps) == 1 && derives(cc.Call.Args[1], func(v ssa.Value) bool { return v == reps[0].Value() }, false)
+		raw := derives(cc.Call.Args[1], func(v ssa.Value) bool { return org(v) == "p1[*]" }, false) && !okEl
+		c.check(okEl && !raw, R, fname(h1), "appended element is the Replace result", ap.Pos(), "append(result, replacer.Replace(item))", "an element is appended without going through the replacer ("+short(org(cc.Call.Args[1]))+"): its markers stay unsubstituted")
+	}
+	for _, rp := range reps {
+		if ld, ok := rp.Common().Args[1].(*ssa.UnOp); ok {
+			c.check(everyIteration(findIndex(ld.X), rp), R, fname(h1), "Replace is applied to every element", rp.Pos(), "the Replace call lies on every path through the loop body", "some elements skip the replacer (a shortcut in front of Replace): their markers stay unsubstituted")
+		}
+	}
 	for _, r := range returnsOf(h1) {
 		fresh := derives(r.Results[0], func(v ssa.Value) bool {
 			if _, ok := v.(*ssa.MakeSlice); ok {
